@@ -159,6 +159,58 @@ func RunC14(tier string) int {
 		}
 		run.Sample(map[string]any{"case": i, "shape": s.Shape(), "history": env.Log})
 	})
+	// A dependency with a timeout that has to be re-run while its dependant loads dependency
+	// outputs (load_outputs=minimal, blobs lost) is still subject to its timeout.
+	Parallel(tierN(tier, 10, 80), func(i int) {
+		r := rng.Derive(uint64(run.Seed), "C14-rerun", fmt.Sprint(i))
+		pf := spec.DefaultProfile()
+		pf.MinTargets, pf.MaxTargets, pf.Aliases = 3, 5, false
+		s := spec.Gen(r, pf)
+		// lib: an early target with outputs and a timeout; app: a target that depends on it
+		lib := s.Targets[0]
+		if len(lib.AllOuts()) == 0 {
+			lib.Outs = append(lib.Outs, spec.Out{Kind: "file", Path: "lib.out"})
+		}
+		lib.Timeout, lib.SleepIf = "1s", "markers/slow_lib"
+		app := s.Targets[len(s.Targets)-1]
+		if !s.Closure([]string{app.Label()})[lib.Label()] {
+			app.Deps = append(app.Deps, lib.Label())
+		}
+		gcfg := randCfg(r)
+		gcfg.LoadOutputs = "minimal"
+		env, err := NewEnv(st.Base, fmt.Sprintf("t%d", i), st.Grog, st.Vctl, s, gcfg)
+		if err != nil {
+			run.Infra(err.Error())
+			return
+		}
+		defer env.Cleanup()
+		hookLog := env.EnableHookLog()
+		cfg := BuildCfg{EnableCache: true, Minimal: true}
+		if _, obs, vs, err := env.Step(BuildOpts{}, cfg, "cold", false); err != nil || len(vs) > 0 || obs.Res.Exit != 0 {
+			return
+		}
+		n := env.DeleteBlobsOf(lib.Label(), hookLog, nil)
+		env.WipeOutputs()
+		env.SetMarker("markers/slow_lib", true)
+		env.Apply(func() string { app.Salt = r.Word(4, 8); return "command-change" })
+		for k := range env.Memo {
+			env.Memo[k] = "lost"
+		}
+		_, obs, _, err := env.Step(BuildOpts{}, cfg, "dependency-rerun", false)
+		if err != nil {
+			return
+		}
+		run.Eval(1)
+		run.Count("dependency_rerun_cases", 1)
+		run.Count("blobs_deleted", n)
+		if obs.Started[lib.Label()] > 0 {
+			run.Nontrivial("dep-rerun|" + s.Shape())
+			run.Count("dependencies_re_run_with_timeout", 1)
+			if obs.Ended[lib.Label()] > 0 || obs.Res.Exit == 0 {
+				run.Violation("timeout-not-enforced on-dependency-rerun", fmt.Sprintf("%s has timeout 1s and sleeps 20 s, but its re-run (dependency outputs lost, load_outputs=minimal) ran to completion: exit=%d", lib.Label(), obs.Res.Exit), mkReplay(i, env, obs))
+			}
+		}
+	})
 	run.Assume("the checked condition is an external marker file the harness owns; it is not a declared input, so only the output check can see it")
 	return run.Finish()
 }
